@@ -1,6 +1,7 @@
 (** C03 — written files are structurally valid PDF.
-    Only statements here; proofs live in theories/C03/{Sound,WriterProofs}.v. *)
-From OxVerif Require Import Base.Util C03.Checker C03.Writer C03.Sound C03.WriterProofs.
+    Only statements here; proofs live in theories/C03/{Sound,WriterProofs,FullTable,FullObjects,Full}.v. *)
+From OxVerif Require Import Base.Util C03.Checker C03.Writer C03.Sound C03.WriterProofs
+  C03.FullTable C03.FullObjects C03.Full.
 
 (** the independent checker is sound for the declarative predicate: header, end of file,
     table position, every in-use entry points at "n g obj", /Size exact, unique numbers,
@@ -50,11 +51,9 @@ Check c03_writer_xref_points_at_header : forall steps root info id off,
   exists rest, at_off (out (finish (run w_init steps) root info)) off (obj_hdr id ++ rest).
 Print Assumptions c03_writer_xref_points_at_header.
 
-(** FULL statement, not proved for all inputs (evaluated per produced file instead):
-      forall ver objs root info, bodies well formed -> offsets < 10^10 -> root/info written ->
-        ValidPdf (emit ver objs root info).
-    Proved part: startxref names the table position, the table and trailer bytes are there,
-    every in-use line's offset is the header of its object in the sense of [ValidPdf]. *)
+(** Proved part that needs NO hypothesis on the bodies (kept; consumed by the full theorem
+    below): startxref names the table position, the table and trailer bytes are there, every
+    in-use line's offset is the header of its object in the sense of [ValidPdf]. *)
 Theorem c03_writer_output_valid_partial : forall steps root info,
   let s := run w_init steps in
   let b := final steps root info in
@@ -69,6 +68,152 @@ Check c03_writer_output_valid_partial : forall steps root info,
   at_off b (pos s) (xref_bytes (xref s) ++ trailer_bytes (xref s) root info (pos s)) /\
   (forall id off, xlookup id (xref s) = Some off -> ObjHeaderAt b off id 0).
 Print Assumptions c03_writer_output_valid_partial.
+
+(** * The clauses of [ValidPdf] for the emission model, one theorem each *)
+
+(** (1) trailer: the keyword, then a dictionary that the checker reads back with
+    /Size = highest number of the table + 1, /Root a reference, no /Prev *)
+Theorem c03_writer_trailer_size : forall x root info xpos,
+  let after := trailer_after root info (xmax x + 1) xpos in
+  let d := trailer_dict root info (xmax x + 1) in
+  trailer_bytes x root info xpos = S_ "trailer" ++ after /\
+  parse_obj (S (length after)) after = Some (ODict d, trailer_tail xpos) /\
+  dict_get (S_ "Size") d = Some (OInt (Z.of_N (max_num (table_of x) + 1))) /\
+  dict_get (S_ "Root") d = Some (ORef root 0) /\
+  dict_get (S_ "Prev") d = None.
+Proof. exact writer_trailer_size. Qed.
+Check c03_writer_trailer_size : forall x root info xpos,
+  let after := trailer_after root info (xmax x + 1) xpos in
+  let d := trailer_dict root info (xmax x + 1) in
+  trailer_bytes x root info xpos = S_ "trailer" ++ after /\
+  parse_obj (S (length after)) after = Some (ODict d, trailer_tail xpos) /\
+  dict_get (S_ "Size") d = Some (OInt (Z.of_N (max_num (table_of x) + 1))) /\
+  dict_get (S_ "Root") d = Some (ORef root 0) /\
+  dict_get (S_ "Prev") d = None.
+Print Assumptions c03_writer_trailer_size.
+
+(** (2) cross-reference section: one subsection "0 max+1" that the checker reads back as
+    [table_of x]; numbers 0,1,..,max in file order, first the free head entry (generation
+    65535), every line 20 bytes (their format: c03_entry_format).  Hypothesis: recorded
+    offsets below 10^10 ({:010} prints more digits otherwise). *)
+Theorem c03_writer_xref_layout : forall x tail, OffsetsFit x -> boundary tail = true ->
+  read_xref (xref_bytes x ++ S_ "trailer" ++ tail) = Some (table_of x, tail) /\
+  List.map e_num (rev (table_of x)) = 0 :: upto (xmax x) /\
+  (exists t, rev (table_of x) = head_entry :: t) /\
+  length free_head = 20%nat /\ (forall n, length (entry_line x n) = 20%nat).
+Proof. exact writer_xref_layout. Qed.
+Check c03_writer_xref_layout : forall x tail, OffsetsFit x -> boundary tail = true ->
+  read_xref (xref_bytes x ++ S_ "trailer" ++ tail) = Some (table_of x, tail) /\
+  List.map e_num (rev (table_of x)) = 0 :: upto (xmax x) /\
+  (exists t, rev (table_of x) = head_entry :: t) /\
+  length free_head = 20%nat /\ (forall n, length (entry_line x n) = 20%nat).
+Print Assumptions c03_writer_xref_layout.
+
+(** (3) end of file: startxref names the position of the table, which lies inside the file,
+    and the bytes from there on are the table followed by the trailer *)
+Theorem c03_writer_tail : forall steps root info,
+  let s := run w_init steps in
+  let b := final steps root info in
+  StartxrefSays b (pos s) /\ pos s < len b /\
+  drop (pos s) b = xref_bytes (xref s) ++ trailer_bytes (xref s) root info (pos s).
+Proof. exact writer_tail. Qed.
+Check c03_writer_tail : forall steps root info,
+  let s := run w_init steps in
+  let b := final steps root info in
+  StartxrefSays b (pos s) /\ pos s < len b /\
+  drop (pos s) b = xref_bytes (xref s) ++ trailer_bytes (xref s) root info (pos s).
+Print Assumptions c03_writer_tail.
+
+(** (4) one entry per object number *)
+Theorem c03_writer_unique_numbers : forall x e1 e2 l1 l2 l3,
+  table_of x = l1 ++ e1 :: l2 ++ e2 :: l3 -> e_num e1 <> e_num e2.
+Proof. exact table_unique. Qed.
+Check c03_writer_unique_numbers : forall x e1 e2 l1 l2 l3,
+  table_of x = l1 ++ e1 :: l2 ++ e2 :: l3 -> e_num e1 <> e_num e2.
+Print Assumptions c03_writer_unique_numbers.
+
+(** (5) a reference [id 0 R] to any id >= 1 written by the step sequence resolves to an
+    in-use entry of generation 0 *)
+Theorem c03_writer_refs_resolve : forall steps id,
+  In id (flat_map step_id steps) -> 1 <= id ->
+  Resolves (table_of (xref (run w_init steps))) (id, 0).
+Proof. exact writer_refs_resolve. Qed.
+Check c03_writer_refs_resolve : forall steps id,
+  In id (flat_map step_id steps) -> 1 <= id ->
+  Resolves (table_of (xref (run w_init steps))) (id, 0).
+Print Assumptions c03_writer_refs_resolve.
+
+(** (6) stream /Length: a body  dict "\nstream\n" data "\nendstream"  whose dictionary reads
+    back with the direct entry /Length = |data| is accepted by the object reader (which skips
+    exactly /Length bytes and must find endstream, then the writer's endobj, there) *)
+Theorem c03_writer_stream_length_exact : forall dv d data rest,
+  parse_obj (S (length (10 :: dv ++ stream_open ++ data ++ stream_close ++ obj_end ++ rest)))
+            (10 :: dv ++ stream_open ++ data ++ stream_close ++ obj_end ++ rest)
+    = Some (ODict d, stream_open ++ data ++ stream_close ++ obj_end ++ rest) ->
+  dict_get (S_ "Length") d = Some (OInt (Z.of_N (len data))) ->
+  read_body (10 :: (dv ++ stream_open ++ data ++ stream_close) ++ obj_end ++ rest)
+    = Some (refs_of (S (length (10 :: dv ++ stream_open ++ data ++ stream_close ++ obj_end ++ rest))) (ODict d)).
+Proof. exact read_body_stream. Qed.
+Check c03_writer_stream_length_exact : forall dv d data rest,
+  parse_obj (S (length (10 :: dv ++ stream_open ++ data ++ stream_close ++ obj_end ++ rest)))
+            (10 :: dv ++ stream_open ++ data ++ stream_close ++ obj_end ++ rest)
+    = Some (ODict d, stream_open ++ data ++ stream_close ++ obj_end ++ rest) ->
+  dict_get (S_ "Length") d = Some (OInt (Z.of_N (len data))) ->
+  read_body (10 :: (dv ++ stream_open ++ data ++ stream_close) ++ obj_end ++ rest)
+    = Some (refs_of (S (length (10 :: dv ++ stream_open ++ data ++ stream_close ++ obj_end ++ rest))) (ODict d)).
+Print Assumptions c03_writer_stream_length_exact.
+
+(** (7) the writer's own tokens around a body: "id 0 obj\n" is read as the header of object
+    id generation 0, and a value followed by the writer's "\nendobj\n" is a complete object *)
+Theorem c03_writer_object_framing : forall id v o rest,
+  parse_obj (S (length (10 :: v ++ obj_end ++ rest))) (10 :: v ++ obj_end ++ rest)
+    = Some (o, obj_end ++ rest) ->
+  obj_header (obj_hdr id ++ v ++ obj_end ++ rest) id 0 = Some (10 :: v ++ obj_end ++ rest) /\
+  read_body (10 :: v ++ obj_end ++ rest) = Some (refs_of (S (length (10 :: v ++ obj_end ++ rest))) o).
+Proof. exact writer_object_framing. Qed.
+Check c03_writer_object_framing : forall id v o rest,
+  parse_obj (S (length (10 :: v ++ obj_end ++ rest))) (10 :: v ++ obj_end ++ rest)
+    = Some (o, obj_end ++ rest) ->
+  obj_header (obj_hdr id ++ v ++ obj_end ++ rest) id 0 = Some (10 :: v ++ obj_end ++ rest) /\
+  read_body (10 :: v ++ obj_end ++ rest) = Some (refs_of (S (length (10 :: v ++ obj_end ++ rest))) o).
+Print Assumptions c03_writer_object_framing.
+
+(** * FULL statement: every output of the emission model is a valid PDF.
+    Hypotheses (all about what the model treats as opaque or as a parameter):
+      VerOk ver          the version string is digit '.' digit ...
+      BodyOk P body      (theories/C03/FullObjects.v) the serialised value reads back with the
+                         checker's value reader up to the "\nendobj\n" the writer appends,
+                         whatever follows in the file; or it is dict "\nstream\n" data
+                         "\nendstream" with the direct /Length = |data|; and every reference
+                         inside satisfies P
+      RefOk ids (n, g)   g = 0, n >= 1, n is one of the written ids (also for /Root, /Info)
+      file shorter than 10^10 bytes.
+    NOT derived here: [BodyOk] for the bytes produced by the C09 serialiser model ([C09.ser]):
+    C09's round-trip theorems are about C09's two readers, not about this checker's
+    [parse_obj]; the hypothesis is evaluated per produced file (valid_pdf) instead. *)
+Theorem c03_writer_output_valid : forall ver objs root info,
+  VerOk ver ->
+  (forall id body, In (id, body) objs -> BodyOk (RefOk (List.map fst objs)) body) ->
+  RefOk (List.map fst objs) (root, 0) -> RefOk (List.map fst objs) (info, 0) ->
+  len (emit ver objs root info) < 10000000000 ->
+  ValidPdf (emit ver objs root info).
+Proof. exact writer_output_valid. Qed.
+Check c03_writer_output_valid : forall ver objs root info,
+  VerOk ver ->
+  (forall id body, In (id, body) objs -> BodyOk (RefOk (List.map fst objs)) body) ->
+  RefOk (List.map fst objs) (root, 0) -> RefOk (List.map fst objs) (info, 0) ->
+  len (emit ver objs root info) < 10000000000 ->
+  ValidPdf (emit ver objs root info).
+Print Assumptions c03_writer_output_valid.
+
+(** its hypotheses are satisfiable on a non-trivial value (dictionary with references,
+    strings, a stream) *)
+Example c03_writer_output_valid_hyps :
+  VerOk (S_ "1.7") /\
+  (forall id body, In (id, body) demo_objs -> BodyOk (RefOk (List.map fst demo_objs)) body) /\
+  RefOk (List.map fst demo_objs) (1, 0) /\ RefOk (List.map fst demo_objs) (3, 0) /\
+  len (emit (S_ "1.7") demo_objs 1 3) < 10000000000.
+Proof. exact demo_hyps. Qed.
 
 (** non-vacuity: the model's output for a small object list (dictionary, strings, a stream,
     references) is accepted, hence satisfies [ValidPdf] *)
